@@ -17,7 +17,8 @@ from pyvc.libmodels import _POW2, _REV, _BL
 
 M = 'cassandra.marshal.'
 
-LEMMAS = ['lemma assumed: 2**a <= 2**b for 0 <= a <= b (monotonicity of powers; Mathlib Nat.pow_le_pow_right), used at the instances named in the harness',
+LEAN_LEMMAS = ['pow2_mono']
+LEMMAS = ['lemma pow2_mono: 2**a <= 2**b for 0 <= a <= b, used at the instances named in the harness - proved in lemmas/Lemmas.lean, elaborated by lean on every run (no longer assumed); what stays assumed is that z3\'s Int and Lean\'s Nat agree on 2**k for k >= 0',
           'E-HEX: int("".join("%02x" % b for b in term), 16) is the unsigned big-endian value of term (probed natively in the bounded stand-in)',
           'uniqueness of minimal two\'s-complement representation (P1-P4 characterise BigInteger.toByteArray)']
 
